@@ -25,13 +25,15 @@ Falsy(v) == v.t = "null" \/ (v.t \in {"arr", "dict"} /\ DOMAIN v.v = {})
 TopFilters(attrs) == Resolve1(GetAny(attrs, <<"F", "Filter">>, Arr(<<>>)))
 TopParams(attrs)  == Resolve1(GetAny(attrs, <<"DP", "DecodeParms", "FDecodeParms">>, Dict(<<>>)))
 
-\* `if not filters: return []`, wrap a single filter, repeat a single parameter object, resolve entries, zip
+\* `if not filters: return []`, wrap a single filter, repeat a single parameter object, resolve entries
+\* (parameters that are not a dictionary, e.g. null, count as no parameters), zip
+NoDictIsEmpty(p) == IF p.t = "dict" THEN p ELSE Dict(<<>>)
 Normalise(filters, params) ==
   IF Falsy(filters) THEN <<>>
   ELSE LET fl == IF filters.t = "arr" THEN filters.v ELSE <<filters>>
            pl == IF params.t = "arr" THEN params.v ELSE [i \in 1..Len(fl) |-> params]
            m  == IF Len(fl) < Len(pl) THEN Len(fl) ELSE Len(pl) IN
-       [i \in 1..m |-> <<Resolve1(fl[i]), Resolve1(pl[i])>>]
+       [i \in 1..m |-> <<Resolve1(fl[i]), NoDictIsEmpty(Resolve1(pl[i]))>>]
 
 Canon(nm) == CASE nm \in {"FlateDecode", "Fl"} -> "Fl" [] nm \in {"LZWDecode", "LZW"} -> "LZW"
                [] nm \in {"ASCII85Decode", "A85"} -> "A85" [] nm \in {"ASCIIHexDecode", "AHx"} -> "AHx"
